@@ -32,6 +32,13 @@ Fixpoint tally_from (sn : snapshot) (acc : option Z) (vs : list val) : option Z 
   end.
 Definition tally (sn : snapshot) (vs : list val) : option Z := tally_from sn None vs.
 
+(** Specification-level reading of a snapshot (used by the theorems, not by the model of the
+    code): the share a validator address stands for (0 for an outsider), membership, and the
+    share sum of a list of addresses. *)
+Definition share0 (l : list (val * Z)) (v : val) : Z := match share_of l v with Some s => s | None => 0 end.
+Definition insider (l : list (val * Z)) (v : val) : bool := match share_of l v with Some _ => true | None => false end.
+Definition power (sn : snapshot) (vs : list val) : Z := zsum (map (share0 (sn_vals sn)) vs).
+
 Definition consensus (sn : snapshot) (t : option Z) : bool :=
   match t with
   | None => false
@@ -50,6 +57,11 @@ Section WithKey.
   Context {K : Type} (keqb : K -> K -> bool) (gk : Z -> Z -> K).
 
   Record group := { g_key : K; g_rep : evidence; g_vals : list val }.
+
+  (** The key of a piece of evidence and the validators that submitted evidence with key [k]. *)
+  Definition ev_key (e : evidence) : K := gk (ev_tag e) (ev_data e).
+  Definition backers (evs : list evidence) (k : K) : list val :=
+    map ev_val (filter (fun e => keqb k (ev_key e)) evs).
 
   Fixpoint group_add (gs : list group) (e : evidence) : list group :=
     match gs with
@@ -75,6 +87,15 @@ Section WithKey.
     else first_consensus sn (ord (groups_of evs)).
 End WithKey.
 
+(** The key the code builds: TypeUrl + "/" + hex(sha256(BytesToHash)).  [h] is the (abstract,
+    never assumed injective) hash of the pair; which components enter comes from the source. *)
+Definition code_key {K : Type} (h : Z -> Z -> K) (tag data : Z) : K :=
+  h (if Gen.C04.group_key_covers_type then tag else 0) (if Gen.C04.group_key_covers_bytes then data else 0).
+
+(** Byte-identical evidence: same proof type and same proof bytes. *)
+Definition identical (w e : evidence) : bool := (ev_tag e =? ev_tag w) && (ev_data e =? ev_data w).
+
+Definition outcome_is_winner (o : outcome) : bool := match o with Winner _ => true | _ => false end.
 
 (** Gas estimates. *)
 Record estimate := { es_val : val; es_value : Z }.
@@ -118,3 +139,18 @@ Definition process_estimates (sn : snapshot) (m : qmsg) : qmsg :=
                    | _ => m
                    end
        end.
+
+(** Everything that can happen to one queued message as far as estimates are concerned. *)
+Inductive qm_op :=
+| OpAddEstimate (e : estimate)      (* Queue.AddGasEstimate *)
+| OpSetElected (v : Z)              (* Queue.SetElectedGasEstimate called directly *)
+| OpEndBlock (sn : snapshot).       (* checkAndProcessEstimatedMessage under the current snapshot *)
+
+Definition qm_step (m : qmsg) (o : qm_op) : qmsg :=
+  match o with
+  | OpAddEstimate e => match add_gas_estimate m e with Some m' => m' | None => m end
+  | OpSetElected v => match set_elected m v with Some m' => m' | None => m end
+  | OpEndBlock sn => process_estimates sn m
+  end.
+
+Definition system_op (o : qm_op) : Prop := match o with OpSetElected _ => False | _ => True end.
